@@ -20,7 +20,7 @@ RULE = ("random documents (regimes N/U/A) and the hostile fixed documents x dele
         "Non-trivial = >=1 matched node; distinct by (document, path, step index)")
 ASSUMPTIONS = ["set members as delete targets are outside the reference evaluator's addressable locations and are skipped",
                "collector cases are decided by an explicit location list (operands are straight paths)"]
-REACH = [("yamlpath/processor.py", 685, 830, "delete_nodes / _delete_nodes")]
+REACH = [("yamlpath/processor.py", "delete_nodes,_delete_nodes", "delete_nodes / _delete_nodes")]
 SIZES = {"quick": 40000, "thorough": 800000}
 REQUIRED_COUNTERS = ["delete_steps", "delete_root_steps", "delete_steps_double_match", "reload_checked"]
 
